@@ -34,7 +34,7 @@ import (
 func init() {
 	core.Register(&core.Prop{
 		ID: "C20",
-		Rule: "E1 bounded-exhaustive: every multiset of <=k declarations from a 52-declaration pool (definitions, patterns, defaults, comprehensions, embedded disjunctions + data that repeats / partially repeats / refines / contradicts them, references and let into removable fields) x every partition into 1-2 files x file order; " +
+		Rule: "E1 bounded-exhaustive: every multiset of <=k declarations from a 57-declaration pool (definitions, patterns, defaults, comprehensions, embedded disjunctions + data that repeats / partially repeats / refines / contradicts them, references and let into removable fields) x every partition into 1-2 files x file order; " +
 			"every tools/trim/testdata archive unmutated and with each literal replaced by another literal of its kind. Non-trivial = packages where trim removed at least one declaration.",
 		Assumptions: []string{"comparison through canon with defaults resolved (TakeDefaults) and all fields (optional, hidden, definitions) included; closedness probes included"},
 		Run:         run, Replay: replay,
@@ -56,17 +56,20 @@ var pool = []string{
 	`if d == 1 {g: 1}`, `h: {#D, z: 1}`, `v: *{x: 1} | {x: 2}`,
 	// a comprehension that ranges over a struct and writes back into it
 	`cd: port: 8080`, `for k, v in cs {cs: (k): cd}`,
+	// a field that is referenced only from inside a string interpolation
+	`iv: {name: string, url: "h-\(name)"}`, `#IS: {name: string, meta: host: "\(name).svc"}`, `is: #IS`,
 	// data side
 	`o: {a: 5}`, `o: {a: 5, b: 1}`, `o: {a: 5, b: 2}`, `o: b: 1`, `p: 1`, `p: 2`, `q: 2`, `e: kind: "a"`, `e: {kind: "a", p: 1}`, `e: {kind: "b", q: 2}`,
 	`e: {kind: "b", q: 3}`, `d: 1`, `d: 2`, `t: x: 2`, `t: {x: 2, y: "s"}`, `t: {x: 3, y: "s"}`, `l: [{x: 1}]`, `l: [{x: 1}, {x: 2}]`,
 	`s: foo: {x: 1, y: 2}`, `s: foo: x: 1`, `s: bar: {x: 2, y: 3}`, `r: t.x`, `let L = d`, `m: L`, `u: b: 1`, `w: b: 1`, `n: m: k: 1`, `g: 1`, `h: a: 5`, `v: x: 1`,
 	`cs: x: {port: 8080}`, `cs: y: {port: 9090}`,
+	`iv: name: "web"`, `#IS: name: "foo"`,
 }
 
 func resolvable(ds []string) bool {
 	joined := "\n" + strings.Join(ds, "\n") + "\n"
 	need := func(ref, decl string) bool { return !strings.Contains(joined, ref) || strings.Contains(joined, decl) }
-	return need("#D", "\n#D:") && need(" in src", "\nsrc:") && need("t.x", "\nt:") && need("= d\n", "\nd:") && need(": L\n", "let L") && need("if d ", "\nd:") && need(" in cs", "\ncs:") && need(": cd}", "\ncd:")
+	return need("#D", "\n#D:") && need(" in src", "\nsrc:") && need("t.x", "\nt:") && need("= d\n", "\nd:") && need(": L\n", "let L") && need("if d ", "\nd:") && need(" in cs", "\ncs:") && need(": cd}", "\ncd:") && need("is: #IS", "\n#IS: {")
 }
 
 func run(r *core.Run) {
